@@ -45,6 +45,8 @@ type concReport struct {
 	History    []concOp `json:"history,omitempty"`
 	// pubsub scenarios: number of hook H2b events fed to the model's operation automaton (conc_pubsub_trace.go)
 	TraceEvents int64 `json:"trace_events,omitempty"`
+	// small pubsub scenarios: every goroutine's whole event sequence, judged again by the Lean automaton PSC.TA.ok (driver engine PST)
+	Traces map[string]string `json:"traces,omitempty"`
 }
 
 func runCmd(mgr *server.Manager, argv ...string) (out string, panicked bool) {
